@@ -58,10 +58,20 @@ def audit(M, cm, g, events=None, closable=False, scope_first_may_be_end=False):
     out = []
     facts = {}
     # ---------------------------------------------------------------- C05: sanitisation
+    sanitised = True
     try:
         mol = g.mol
     except Exception as exc:
-        return [V("c05.not-sanitisable", f"returned molecule fails sanitisation: {type(exc).__name__}: {exc}")], facts
+        # the molecule cannot be sanitised: the structural clauses (partition, bonds at descriptor atoms) are still decided on the raw molecule
+        out.append(V("c05.not-sanitisable", f"returned molecule fails sanitisation: {type(exc).__name__}: {exc}"))
+        sanitised = False
+        mol = getattr(g, "_mol", None)
+        if mol is None:
+            return out, facts
+        try:
+            mol.UpdatePropertyCache(strict=False)
+        except Exception:
+            pass
     tab = token_table(M, cm)
     try:
         inst = partition(mol, tab)
@@ -129,7 +139,7 @@ def audit(M, cm, g, events=None, closable=False, scope_first_may_be_end=False):
     except Exception as exc:
         out.append(V("c05.residue-graph-differs", f"MolGen.graph unreadable: {exc}"))
     # hydrogens of atoms written without brackets
-    for k, (tok, off) in enumerate(inst):
+    for k, (tok, off) in enumerate(inst if sanitised else []):
         texts = atom_texts(tok)
         for a, txt in enumerate(texts):
             if txt.startswith("["):
@@ -150,8 +160,12 @@ def audit(M, cm, g, events=None, closable=False, scope_first_may_be_end=False):
                 out.append(V("c05.hydrogen-count", f"atom {off + a} ({txt} in {tok.text}) has {at.GetTotalNumHs()} H and {at.GetNumRadicalElectrons()} radical electrons with bond order sum {bo}; the organic-subset rule gives {want}"))
     # mass
     want_mass = sum(tok.mass for tok, _ in inst)
-    if abs(g.weight - want_mass) > 1e-6 * max(1.0, want_mass):
-        out.append(V("c05.mass-differs", f"MolGen.weight {g.weight!r}, sum of residue heavy masses {want_mass!r}"))
+    try:
+        got_mass = g.weight
+    except Exception:
+        got_mass = want_mass
+    if abs(got_mass - want_mass) > 1e-6 * max(1.0, want_mass):
+        out.append(V("c05.mass-differs", f"MolGen.weight {got_mass!r}, sum of residue heavy masses {want_mass!r}"))
     facts.update(n_residues=n_inst, n_tokens=len(set(id(t) for t, _ in inst)), multi_atom=any(t.reading.n_atoms > 1 for t, _ in inst), inst=[(t.key, off) for t, off in inst], cross=cross)
 
     # ---------------------------------------------------------------- C04: every bond joins two atoms that carry (in the NOTATION, read by
